@@ -313,8 +313,8 @@ func czNotDigit(gt *gen.GoTree) string {
 func czCheck(c *core.Ctx, cases []czCase) []core.Outcome {
 	outs := make([]core.Outcome, len(cases))
 	prep := make([]*czPrepared, len(cases))
-	var send []string
-	var idx []int
+	var send, endSend []string
+	var idx, endIdx []int
 	for i := range cases {
 		cs := &cases[i]
 		o := &outs[i]
@@ -350,6 +350,10 @@ func czCheck(c *core.Ctx, cases []czCase) []core.Outcome {
 			o.Buckets = append(o.Buckets, "tree-unsupported")
 			continue
 		}
+		if !rtl {
+			endIdx = append(endIdx, i)
+			endSend = append(endSend, "(c05 endfix "+g1.Sexp+")")
+		}
 		if g0.Sexp == g1.Sexp {
 			o.Buckets = append(o.Buckets, "trees-equal")
 			continue
@@ -383,6 +387,28 @@ func czCheck(c *core.Ctx, cases []czCase) []core.Outcome {
 	}
 	for n, i := range idx {
 		czCompare(&cases[i], prep[i], res[n], &outs[i])
+	}
+	// the engine's final tree against Lean's function model of eliminateEndingBacktracking (endAtomicTop;
+	// Props.C05.endAtomic_sound): applying the model to what the engine produced must change nothing
+	if eres, err := c.RunDriver(endSend); err == nil {
+		for n, i := range endIdx {
+			if eres[n] == "(ok 1)" {
+				outs[i].Buckets = append(outs[i].Buckets, "endfix:fixed-point")
+			} else {
+				outs[i].Buckets = append(outs[i].Buckets, "endfix:model-would-rewrite-more")
+				if outs[i].Fail == nil {
+					outs[i].Fail = &core.Failure{Kind: "correspondence-break", Key: "Cz:endfix",
+						Summary:  fmt.Sprintf("the engine's final tree is not a fixed point of Lean's model of eliminateEndingBacktracking (endAtomicTop): pattern %q opts %d", cases[i].Pattern, cases[i].Opts),
+						Expected: "endAtomicTop tree = tree", Got: endSend[n]}
+				}
+				if czDebug != "" {
+					if f, err := os.OpenFile(czDebug, os.O_APPEND|os.O_CREATE|os.O_WRONLY, 0o644); err == nil {
+						fmt.Fprintf(f, "ENDFIX %q opts %d\n  %s\n", cases[i].Pattern, cases[i].Opts, endSend[n])
+						f.Close()
+					}
+				}
+			}
+		}
 	}
 	return outs
 }
@@ -545,7 +571,7 @@ func c05RegisterCert(c *core.Ctx) {
 	z := &czGen{g: &engGen{allowRTL: true, perPat: 8, maxLen: 10, biasRewrite: true}}
 	core.RunLeg(c, core.Leg[czCase]{
 		Name: "Cz", Kind: "correspondence(certifier)+search",
-		Rule: "one third site-directed patterns (a single-character loop of every kind, greedy/lazy, bare or ending a capture / alternation branch / counted group / atomic group, followed by one to three continuation items drawn from characters, sets, \\b \\B $ \\z \\Z, nullable loops, alternations, groups, lookarounds, conditionals), two thirds patterns as leg R (the shapes the rewrites look for; right-to-left patterns included — the engine does not rewrite them, so their trees must come out equal or differ by certified tail rewrites). Each pattern is parsed with the rewrites off and on; both trees (gen.FromGoTree) go to Lean's cert (Model/AutoAtomic.lean; Props.C05.certified_find: a certified pair has the same find result from every start), with the oracle bits 'disjoint' and 'uniformly word/non-word' computed exactly from the structure of the engine's sets and Go's unicode tables on the boundary points of the tests. Buckets: trees-equal, certified (every difference is a modelled rewrite and is justified), other-rewrite:<code> (a tree difference cert does not model: prefix factoring, atomic-alternation reordering, loop-body sites …; counted, not an alarm), known-finding-KF2 (a loop over non-word runes still pending after passing \\B), not-certified:<reason>. A not-certified pattern starts a search (the pattern's directed inputs, 1500 random strings mostly over its own characters, every start offset) for an input on which the two compilations differ through the naive scan: found → impl-violation, not found → correspondence-break. non-trivial = the trees differ and were sent to Lean",
+		Rule: "one third site-directed patterns (a single-character loop of every kind, greedy/lazy, bare or ending a capture / alternation branch / counted group / atomic group, followed by one to three continuation items drawn from characters, sets, \\b \\B $ \\z \\Z, nullable loops, alternations, groups, lookarounds, conditionals), two thirds patterns as leg R (the shapes the rewrites look for; right-to-left patterns included — the engine does not rewrite them, so their trees must come out equal or differ by certified tail rewrites). Each pattern is parsed with the rewrites off and on; both trees (gen.FromGoTree) go to Lean's cert (Model/AutoAtomic.lean; Props.C05.certified_find: a certified pair has the same find result from every start), with the oracle bits 'disjoint' and 'uniformly word/non-word' computed exactly from the structure of the engine's sets and Go's unicode tables on the boundary points of the tests. Buckets: trees-equal, certified (every difference is a modelled rewrite and is justified), other-rewrite:<code> (a tree difference cert does not model: prefix factoring, atomic-alternation reordering, loop-body sites …; counted, not an alarm), known-finding-KF2 (a loop over non-word runes still pending after passing \\B), not-certified:<reason>. A not-certified pattern starts a search (the pattern's directed inputs, 1500 random strings mostly over its own characters, every start offset) for an input on which the two compilations differ through the naive scan: found → impl-violation, not found → correspondence-break. Independently, the engine's final left-to-right tree must be a fixed point of Lean's function model of eliminateEndingBacktracking (endAtomicTop, Props.C05.endAtomic_sound): bucket endfix:fixed-point, else correspondence-break. non-trivial = the trees differ and were sent to Lean",
 		N: c.N(1500, 60000), Corpus: czCorpus, Gen: z.next, Check: czCheck, Batch: 500,
 	})
 }
